@@ -12,6 +12,18 @@ RES = ["ALA", "ARG", "ASN", "ASP", "CYS", "GLN", "GLU", "GLY", "HIS", "ILE", "LE
 POS = {"nterm": 0, "mid": 1, "cterm": 2}
 
 
+_FF = {}
+
+
+def _ff(ff):
+    if ff not in _FF:
+        from pdb2pqr import forcefield, io
+        from tables.ff_provenance import dat_rows
+
+        _FF[ff] = (forcefield.Forcefield(ff, io.get_definitions(), None), dat_rows(str(io.test_dat_file(ff))))
+    return _FF[ff]
+
+
 def _cell(task):
     ff, resname, pos, extra = task
     from tables import pipeline as pl
@@ -36,7 +48,33 @@ def _cell(task):
         for line in r["pqr_text"].splitlines():
             if line.startswith(("ATOM", "HETATM")):
                 pqr_q += float(line.split()[-2])
-    return key, {"ok": True, "ffname": residue.ffname, "charge": residue.charge, "unassigned": missing,
+    # C01: every written atom carries exactly the DAT row its (state-qualified residue, atom) resolves to
+    fobj, rows = _ff(ff)
+    wrong = []
+    written = {}
+    for line in (r["pqr_text"] or "").splitlines():
+        if line.startswith(("ATOM", "HETATM")):
+            w = line.split()
+            written[int(w[1])] = (w[-2], w[-1])
+    miss_ids = {id(a) for a in (r["missing"] or [])}
+    for res_ in biomol.residues:
+        for atom in res_.atoms:
+            if id(atom) in miss_ids:
+                if atom.serial in written and False:
+                    wrong.append([res_.ffname, atom.name, "unassigned atom was written"])
+                continue
+            rn, an = fobj.get_names(res_.ffname, atom.name)
+            row = rows.get((rn, an))
+            if row is None or (atom.ffcharge, atom.radius) != row:
+                wrong.append([res_.ffname, atom.name, atom.ffcharge, atom.radius, row])
+                continue
+            wq = written.get(atom.serial)
+            if wq is None or wq != (f"{row[0]:.4f}", f"{row[1]:.4f}"):
+                wrong.append([res_.ffname, atom.name, "written", wq, "row", row])
+    n_written = len(written)
+    n_model = sum(len(x.atoms) for x in biomol.residues)
+    return key, {"ok": True, "param_mismatch": wrong[:10], "n_written": n_written, "n_model": n_model,
+                 "ffname": residue.ffname, "charge": residue.charge, "unassigned": missing,
                  "is_n_term": bool(residue.is_n_term), "is_c_term": bool(residue.is_c_term),
                  "patches": list(residue.patches), "total": tot, "pqr_total": pqr_q,
                  "all_missing": len(r["missing"] or [])}
